@@ -72,6 +72,7 @@ type vsRun struct {
 
 	nextCapture int
 	brokenFiles int
+	mergeFaults int
 	views       [2]*vsView
 	mergesDone  int
 	importsDone int
@@ -192,7 +193,8 @@ func (r *vsRun) genDef(name string, existing []string) string {
 		}
 		if len(marks) != 0 && rapid.IntRange(0, 2).Draw(rt, "submark") == 0 {
 			_, sub, _ := strings.Cut(rapid.SampledFrom(marks).Draw(rt, "submarktag"), "/")
-			return fmt.Sprintf("@qtd:mark:%s sport:@qtd:sport@", sub)
+			// the same mark may be used by the main query and by the sub-query of one definition
+			return strings.ReplaceAll(rapid.SampledFrom([]string{"@qtd:mark:M sport:@qtd:sport@", "-mark:M @qtd:mark:M sport:@qtd:sport@", "mark:M @qtd:mark:M -id:@qtd:id@ chost:@qtd:chost@"}).Draw(rt, "submarktmpl"), "M", sub)
 		}
 		return strings.ReplaceAll(rapid.SampledFrom(rapid.SampledFrom(pools).Draw(rt, "pool")).Draw(rt, "def"), "@q:", "@qtd:")
 	}
@@ -540,6 +542,28 @@ func (r *vsRun) stepDeliver() {
 	}
 	k := ks[rapid.IntRange(0, len(ks)-1).Draw(rt, "which")]
 	r.deliverKind(k)
+}
+
+// stepMergeFault makes merges fail (or work again): the directory the merge job writes its output to is
+// switched to one that does not exist - the disk-full / read-only situation. Imports are not affected (the
+// importer has its own copy of the path). A failed merge must leave everything as it was and must not be
+// retried for ever.
+func (r *vsRun) stepMergeFault() {
+	broken := false
+	_ = r.e.inLoop(func() {
+		if r.e.mgr.IndexDir == r.e.dirs.index {
+			r.e.mgr.IndexDir = filepath.Join(r.e.dirs.base, "no-such-directory") + "/"
+			broken = true
+		} else {
+			r.e.mgr.IndexDir = r.e.dirs.index
+		}
+	})
+	if broken {
+		r.mergeFaults++
+		r.log("merges fail from now on")
+	} else {
+		r.log("merges work again")
+	}
 }
 
 // stepHold arranges that the next job of a kind is held before its body runs.
@@ -891,6 +915,9 @@ func (r *vsRun) checkConvertersInLoop() string {
 			data, err := s.Data()
 			if err != nil {
 				return err.Error()
+			}
+			if veConvFails(data) {
+				return fmt.Sprintf("converter %s: stream %d has cached output %q although the converter answers its current payload with an unusable line", cn, id, fmt.Sprint(got))
 			}
 			want := veConvExpected(cn, data)
 			if fmt.Sprint(got) != fmt.Sprint(want) {
@@ -1330,7 +1357,10 @@ func (r *vsRun) finalChecks() {
 			}
 			for tn, t := range m.tags {
 				for _, cv := range t.converters {
-					for id := range streams {
+					for id, st := range streams {
+						if data, err := st.Data(); err == nil && veConvFails(data) {
+							continue // the converter fails on this payload: the service gives up after two attempts
+						}
 						if t.Matches.IsSet(uint(id)) && !cv.Contains(id) {
 							msg = fmt.Sprintf("at quiescence stream %d matches tag %s with converter %s attached but has no converter output", id, tn, cv.Name())
 							return
@@ -1527,6 +1557,9 @@ func vsScenario(rt *rapid.T, c *vlib.Case, t *testing.T, cfg vsConfig, open map[
 	add("hold", 1, r.stepHold)
 	add("start", 2, r.stepStart)
 	add("reset", cfg.wReset, r.stepReset)
+	if cfg.focus == "C09" || cfg.focus == "C13" {
+		add("mergefault", 1, r.stepMergeFault)
+	}
 	rt.Repeat(actions)
 	r.finalChecks()
 
@@ -1540,6 +1573,8 @@ func vsScenario(rt *rapid.T, c *vlib.Case, t *testing.T, cfg vsConfig, open map[
 	c.LabelIf(r.maxParked >= 2, "two-jobs-parked")
 	c.LabelIf(r.startedHeld > 0, "job-body-delayed")
 	c.LabelIf(r.outOfOrder, "capture-arrived-out-of-order")
+	c.LabelIf(r.mergeFaults > 0, "merges-made-to-fail")
+	c.LabelIf(r.brokenFiles > 0, "broken-upload-queued")
 	nontrivial := false
 	switch cfg.focus {
 	case "C06":
